@@ -258,7 +258,8 @@ impl ConcreteReadableShape for Multipoint {
         bbox_read_xy_from(&mut bbox, source)?;
 
         let num_points = source.read_i32::<LittleEndian>()?;
-        if record_size == Self::size_of_record(num_points) as i32 {
+        non_negative(num_points)?;
+        if size_matches(record_size, Self::size_of_record(num_points)) {
             let points = read_xy_in_vec_of::<Point, T>(source, num_points)?;
             Ok(Self { bbox, points })
         } else {
@@ -334,14 +335,14 @@ impl ConcreteReadableShape for MultipointM {
         bbox_read_xy_from(&mut bbox, source)?;
 
         let num_points = source.read_i32::<LittleEndian>()?;
+        non_negative(num_points)?;
 
-        let size_with_m = Self::size_of_record(num_points, true) as i32;
-        let size_without_m = Self::size_of_record(num_points, false) as i32;
+        let m_is_used = size_matches(record_size, Self::size_of_record(num_points, true));
+        let m_is_not_used = size_matches(record_size, Self::size_of_record(num_points, false));
 
-        if (record_size != size_with_m) & (record_size != size_without_m) {
+        if !m_is_used && !m_is_not_used {
             Err(Error::InvalidShapeRecordSize)
         } else {
-            let m_is_used = size_with_m == record_size;
             let mut points = read_xy_in_vec_of::<PointM, T>(source, num_points)?;
 
             if m_is_used {
@@ -428,14 +429,14 @@ impl ConcreteReadableShape for MultipointZ {
         let mut bbox = GenericBBox::<PointZ>::default();
         bbox_read_xy_from(&mut bbox, source)?;
         let num_points = source.read_i32::<LittleEndian>()?;
+        non_negative(num_points)?;
 
-        let size_with_m = Self::size_of_record(num_points, true) as i32;
-        let size_without_m = Self::size_of_record(num_points, false) as i32;
+        let m_is_used = size_matches(record_size, Self::size_of_record(num_points, true));
+        let m_is_not_used = size_matches(record_size, Self::size_of_record(num_points, false));
 
-        if (record_size != size_with_m) & (record_size != size_without_m) {
+        if !m_is_used && !m_is_not_used {
             Err(Error::InvalidShapeRecordSize)
         } else {
-            let m_is_used = size_with_m == record_size;
             let mut points = read_xy_in_vec_of::<PointZ, T>(source, num_points)?;
 
             bbox_read_z_range_from(&mut bbox, source)?;
